@@ -11,6 +11,17 @@ def T(tree, path=DEV, depth=0, threads='-', annot=''):
     return 'T %d %s %s %s%s' % (depth, threads, path, tree, (' ' + annot) if annot else '')
 
 
+def vary_options(lines, rnd, share=0.3):
+    """Give a share of the T requests explicit run options (thread counts incl. 1, -depth): no property about the
+    emitted program except the thread count itself may depend on them."""
+    out = []
+    for l in lines:
+        if l.startswith('T 0 - ') and rnd.random() < share:
+            l = 'T %d %s %s' % (rnd.choice([0, 0, 1]), rnd.choice(['1', '1', '2', '64', '4294967295', '-']), l[6:])
+        out.append(l)
+    return out
+
+
 # ------------------------------------------------------------------ C12
 
 def gen_unsupported(tier, rnd):
@@ -82,6 +93,7 @@ def gen_strings(tier, rnd):
     # every Unicode class at every site: C0/DEL/C1 controls, 1..4-byte characters, separators, noncharacters
     for c in ['\x01', '\x08', '\x0b', '\x0c', '\x1b', '\x1f', '\x7f', '\x80', '\x85', '\x9f', '\xa0', '\u0378', '\u2028', '\ufeff', '\uffff', '\U0001f600', '\U0010ffff']:
         strings += [c, 'a' + c, c + 'b', 'a' + c + 'b', c + c, c + '"', '\\' + c]
+    strings += ['{}', '{mdt}', 'v{}', '{0}', '%s', '$mdt', '/dev/x', '"/dev/x"', '(', ')', 'a(b', ':)']
     g = 0
     for name, (build, strs, benign) in sites.items():
         for s in strings:
@@ -119,6 +131,7 @@ def gen_strings(tier, rnd):
 # ------------------------------------------------------------------ C20
 
 PATHS = ['/dev/x', '/dev/mdt0', 'a"b', 'c\\d', 'é ~', 'p q', '(x)', ';#|', "it's", 'x' * 300, '\t', '"', '\\', '~a',
+         '/mnt' + 'é' * 60, '/mnt/' + 'é' * 60, '/dev/disk/by-id/dm-name-' + '日本' * 10 + '-MDT0000', '😀' * 30,
          '/mnt/\x1b[1mmdt', '\x7f', 'a\u200bb', '\ufeff', '\x01', 'x\x85y', '\U0001f600', '\u0378', '\x00', 'a\nb', '\r', '\u2028', '\x9f']
 
 
@@ -149,6 +162,8 @@ def gen_histories_c20(tier, rnd):
         if rnd.random() < 0.5:
             ps[-1] = ps[0]
         lines.append('C %s %s' % (hx(rand_compilable_text(rnd)), ' '.join(hx(p) for p in ps)))
+    for L in range(60, 100):
+        lines.append('C %s %s' % (hx('-name *.log -fprint out.txt'), ' '.join(hx(p) for p in ['/' + 'é' * L, '/a' + 'é' * L, '/' + 'é' * L])))
     # user strings that look like a template slot or like the device path itself must stay what they are
     markers = ['{mdt}', '{}', '{0}', '{device}', '%s', '%MDT%', '$mdt', '${mdt}', '@MDT@', 'MDT', '~a', '/dev/x', '/dev/mdt0', '"/dev/x"', '<mdt>', '__MDT__']
     for mk in markers:
@@ -189,6 +204,19 @@ def gen_resources(tier, rnd):
         for l in leaves[1:]:
             tree = '(%s %s %s)' % (rnd.choice(['And', 'And', 'Or', 'List']), tree, l)
         lines.append(T(tree))
+    # n distinct matchers followed by 2..3 new printers, for every n up to 40 (every generated-name index is hit by a printer)
+    for n in range(0, 41):
+        names = ' '.join('(T (Name %s))' % sx_str('n%d' % i) for i in range(n))
+        for acts in [['(A (FilePrint %s))' % sx_str('a'), '(A (FilePrint %s))' % sx_str('b')], ['(A (FilePrintNull %s))' % sx_str('a'), '(A PrintNull)', '(A (FilePrint %s))' % sx_str('c')]]:
+            leaves = ['(T (Name %s))' % sx_str('n%d' % i) for i in range(n)] + acts
+            tree = leaves[0]
+            for l in leaves[1:]:
+                tree = '(And %s %s)' % (tree, l)
+            lines.append(T(tree))
+    # plain mode: a formatted print ending in each octal escape value next to -print
+    for v in list(range(0, 16)) + [10, 266, 522, 255, 256, 511]:
+        lines.append(T('(Or (A Print) (A (PrintFormatted (# (Fld Name) (Spc (Ascii %d))))))' % v))
+    lines = vary_options(lines, rnd)
     return lines, {'rule': '%d expressions with 0..13 (every 50th: 100..300) matchers and printers in random first-occurrence order, with repeats, case-only differences, pattern/literal pairs, file and stdout destinations, in plain and framed mode; non-trivial = at least two resources' % n,
                    'streams': {'resources': len(lines)}}
 
@@ -216,6 +244,9 @@ def gen_small_trees(tier, rnd):
     n = 2000 if tier == 'quick' else 10000
     for _ in range(n):
         lines.append(T(rand_expr(rnd, rnd.randint(3, 7), supported_only=True, parser_shapes_only=True, p_action=rnd.choice([0, 0, 0.05, 0.3]))))
+    leaves2 = ['(T True)', '(T False)', '(T (Name %s))' % sx_str('x'), '(A Quit)', '(A PrintFid)', '(A PrintNull)']
+    lines += [T(t) for t in small_trees(3 if tier == 'quick' else 4, leaves2)]
+    lines = vary_options(lines, rnd, 0.15)
     return lines, {'rule': 'all %d trees with at most %d nodes over {true, false, -name x, -print, -quit, -fprint f} and not/and/or/list (exhaustive), plus %d random larger trees of supported constructs with few or no actions; non-trivial = every request' % (len(trees), 4 if tier == 'quick' else 5, n),
                    'exhaustive': False, 'streams': {'small_trees': len(trees), 'random': n}}
 
@@ -257,6 +288,10 @@ def gen_actions(tier, rnd):
         for l in leaves[1:]:
             tree = '(And %s %s)' % (tree, l)
         lines.append(T(tree))
+    lines = vary_options(lines, rnd)
+    # every octal escape value as the last element of a stdout format (is it the newline escape or not?)
+    for v in range(0, 512):
+        lines.append(T('(A (PrintFormatted (# (Fld Name) (Spc (Ascii %d)))))' % v))
     return lines, {'rule': 'all multisets of up to %d actions drawn from every output-producing action (stdout/3 file names x newline/NUL/formatted, print-file-fid, formats ending/not ending in a newline escape, empty format) and -quit, shuffled together with 0..3 tests (constants, name/path matchers that consume generated-name indices, a size test) into random operator trees (exhaustive over multisets)%s; one family with 1..300 distinct destinations; non-trivial = every request' % (maxk, '' if tier == 'quick' else ' plus 100000 random multisets of 5..6'),
                    'streams': {'actions': len(lines)}}
 
@@ -273,6 +308,10 @@ def gen_histories_c15(tier, rnd):
             t += ' ' + ' '.join(rnd.choice(['-name n%d' % rnd.randint(0, 20), '-iname N%d' % rnd.randint(0, 9), '-fprint f%d' % rnd.randint(0, 9),
                                             '-amin %d' % rnd.randint(0, 9), '-ctime +%d' % rnd.randint(0, 9), '-print0']) for _ in range(rnd.randint(1, 12)))
         texts.append(t)
+    # n distinct matchers, then two new destinations back to back: every generated-name index is once the first printer
+    for k in range(0, 41):
+        texts.append(' '.join('-name n%d' % j for j in range(k)) + ' -fprint a -fprint b')
+        texts.append('( ' + ' -o '.join('-name n%d' % j for j in range(max(k, 1))) + ' ) -fprint0 a -fprint b -fprint0 b')
     seq = []
     for i, t in enumerate(texts):
         seq += [(i, t)] * 3
@@ -352,6 +391,19 @@ def gen_trees(tier, rnd):
               '(A (FilePrint %s))' % sx_str('out'), '(A (PrintFormatted (# (Fld DiskSizeBytes) (Spc Newline))))']
     for t in small_trees(4 if tier == 'quick' else 5, leaves):
         add(t, 'small_trees')
+    # pairwise interactions: every ordered pair of test kinds as adjacent operands (a code generator that fuses
+    # neighbours must still mean the same)
+    reps = ['(T (Type (# File)))', '(T (Type (# Directory Link)))', '(T (Perm (Equal 420)))', '(T (Perm (Equal 2541)))', '(T (Perm (AtLeast 420)))', '(T (Perm (Any 73)))',
+            '(T (Size (GT (KiloByte 3))))', '(T (Size (LT (Byte 5000))))', '(T (UserId (EQ 1000)))', '(T (GroupId (GT 5)))', '(T (Links (LT 2)))',
+            '(T (InodeNumber (EQ 42)))', '(T (AccessTime (GT (Day 1))))', '(T (ModifyTime (LT (Hour 100))))', '(T (ChangeTime (EQ (Minute 3333))))',
+            '(T (Name %s))' % sx_str('foo'), '(T (InsensitiveName %s))' % sx_str('F*'), '(T (Path %s))' % sx_str('dir/*'), '(T (Pool %s))' % sx_str('p1'),
+            '(T (Xattr %s))' % sx_str('user.a'), '(T (XattrMatch %s %s))' % (sx_str('user.a'), sx_str('v')), '(T Empty)', '(T Readable)', '(T True)', '(T False)',
+            '(T (StripeCount (GT 1)))', '(T (MirrorCount (EQ 1)))', '(A Print)', '(A PrintFid)', '(A (PrintFormatted (# (Fld PermissionsOctal) (Spc Newline))))']
+    for a in reps:
+        for b in reps:
+            add('(And %s %s)' % (a, b), 'pairs')
+            if a < b:
+                add('(Or %s (Not %s))' % (a, b), 'pairs')
     # random larger trees over everything supported
     for _ in range(3000 if tier == 'quick' else 60000):
         add(rand_expr(rnd, rnd.randint(1, 6), supported_only=True, parser_shapes_only=True, p_action=rnd.choice([0, 0.1, 0.3, 0.5])), 'random')
@@ -359,5 +411,6 @@ def gen_trees(tier, rnd):
     for _ in range(300 if tier == 'quick' else 3000):
         lines.append('C %s %s' % (hx(rand_compilable_text(rnd)), DEV))
         counts['text'] = counts.get('text', 0) + 1
-    return lines, {'rule': 'every supported test x every comparison x boundary-rich constants (sizes in all 7 units up to 2^64-1, times in all 4 units, ids, 32 permission masks x 3 checks, type lists, 17 names x 6 string tests, xattr pairs, flags), every action, every supported directive/escape/literal alone and embedded plus random formats, ALL operator trees with at most %d nodes over 8 leaves (tests, print, fprint, printf, quit), random trees of depth <= 6 over all supported constructs, and texts through the parser; each program is executed on the base file, one file per variation directed at each constant of the tree (value-1/value/value+1 per unit, each permission/type bit, matching and near-miss names, zero size, future time stamps) and 8 pseudo-random combinations; non-trivial = every request' % (4 if tier == 'quick' else 5),
+    lines = vary_options(lines, rnd, 0.2)
+    return lines, {'rule': 'every ordered pair of 30 representative primaries as adjacent operands; a fifth of the requests with explicit run options (thread count 1, 2, 64, 2^32-1; -depth); every supported test x every comparison x boundary-rich constants (sizes in all 7 units up to 2^64-1, times in all 4 units, ids, 32 permission masks x 3 checks, type lists, 17 names x 6 string tests, xattr pairs, flags), every action, every supported directive/escape/literal alone and embedded plus random formats, ALL operator trees with at most %d nodes over 8 leaves (tests, print, fprint, printf, quit), random trees of depth <= 6 over all supported constructs, and texts through the parser; each program is executed on the base file, one file per variation directed at each constant of the tree (value-1/value/value+1 per unit, each permission/type bit, matching and near-miss names, zero size, future time stamps) and 8 pseudo-random combinations; non-trivial = every request' % (4 if tier == 'quick' else 5),
                    'streams': counts}
